@@ -156,6 +156,18 @@ def encode (env : Env) : Nat → Ty → Val → Builder → Outcome Builder
             let b ← b.writeBits root.bits
             root.refs.foldlM (fun b r => b.addRef r) b
       | _, _ => .err "bad value")
+    | .chain e =>
+      -- W5ExtendedActions.MarshalTLB: an element, then (unless it was the last) a fresh cell behind one reference
+      (match v with
+      | .nil => .ok b
+      | .cons x rest => do
+        let b ← encode env fuel e x b
+        match rest with
+        | .nil => .ok b
+        | _ => do
+          let child ← encode env fuel (.chain e) rest Builder.empty
+          b.addRef child.toCell
+      | _ => .err "bad value")
     | .encErr _ => .err "marshaling not implemented"
     | .opaque _ => .err "unmodelled"
 
